@@ -15,6 +15,7 @@ import (
 
 	"github.com/gopacket/gopacket"
 	"github.com/gopacket/gopacket/layers"
+	"github.com/gopacket/gopacket/verifhook"
 
 	"verif/sim"
 	"verif/sim/coop"
@@ -408,7 +409,15 @@ type shared struct {
 
 // ---- C02 ----
 
-func simC02(c *sim.Ctx) {
+func simC02(c *sim.Ctx)     { runC02(c, false) }
+func simC02cold(c *sim.Ctx) { runC02(c, true) }
+
+// runC02: in cold mode nothing is decoded or rendered before the workers
+// start (the run is the first of its process), so that whatever gopacket
+// computes on first use and keeps for the life of the process - a table, a
+// cache - is first used by concurrent workers; their answers are compared
+// with each other and with a reference taken after the run.
+func runC02(c *sim.Ctx, cold bool) {
 	inputs, firsts := corpus(c, false)
 	pristine := make([][]byte, len(inputs))
 	for i, b := range inputs {
@@ -416,7 +425,25 @@ func simC02(c *sim.Ctx) {
 	}
 	// reference signatures, taken in a quiet state
 	ref := make([][8]string, len(inputs))
+	mkRef := func() {
+		for i := range inputs {
+			for k := 0; k < 8; k++ {
+				p := gopacket.NewPacket(pristine[i], firsts[i], opts(k%4))
+				if k >= 4 {
+					prepare(p)
+				}
+				ref[i][k] = signature(p)
+			}
+		}
+	}
+	type obs struct {
+		kind, a, b int
+		got        string
+	}
 	for i := range inputs {
+		if cold {
+			break
+		}
 		for k := 0; k < 8; k++ {
 			// from a separate copy of the same bytes: what lies behind len() of
 			// the caller's slice must not matter
@@ -428,6 +455,10 @@ func simC02(c *sim.Ctx) {
 		}
 	}
 	s := coop.New(c)
+	// a scheduling point in front of every mutex acquisition of the
+	// (instrumented) packages, including ones a change has introduced
+	verifhook.Hook = s.AnyLockHook
+	defer func() { verifhook.Hook = nil }()
 	nw := 2 + c.Weighted(2, 2, 1)
 	slots := make([]*shared, 6)
 	for i := range slots {
@@ -450,6 +481,8 @@ func simC02(c *sim.Ctx) {
 	c.Ev("plan", int64(len(inputs)), int64(nw))
 	type failure struct{ clause, kind, where, detail string }
 	fails := make([]*failure, nw)
+	seen := make([][]obs, nw) // cold mode: what each worker observed, compared after the run
+	prepped := make([]bool, len(slots))
 	for wi := 0; wi < nw; wi++ {
 		wi := wi
 		s.Go(fmt.Sprintf("w%d", wi), func(w *coop.W) {
@@ -467,6 +500,10 @@ func simC02(c *sim.Ctx) {
 						prepare(p)
 					}
 					w.Rec("decode", int64(o.a), int64(o.b), 0, "", nil)
+					if cold {
+						seen[wi] = append(seen[wi], obs{0, o.a, o.b, signature(p)})
+						continue
+					}
 					if got := signature(p); got != ref[o.a][o.b] {
 						fail("deterministic", "decode-differs", "NewPacket", "input %d options %d decoded differently after other packets had been decoded / while other goroutines decode:\n got %q\nwant %q", o.a, o.b, got, ref[o.a][o.b])
 					}
@@ -484,6 +521,12 @@ func simC02(c *sim.Ctx) {
 					}
 					sh := slots[o.b]
 					sh.in = o.a
+					if cold {
+						prepped[o.b] = prep
+						w.Rec("publish", int64(o.a), int64(o.b), 0, "", nil)
+						sh.p.Store(&p)
+						continue
+					}
 					// The expected answers come from a twin decoded from the same bytes
 					// (half of the time), so that the packet handed over is untouched:
 					// anything an accessor computes on first use and keeps in the packet
@@ -506,6 +549,10 @@ func simC02(c *sim.Ctx) {
 						continue
 					}
 					w.Rec("read", int64(o.a), int64(o.b), 0, "", nil)
+					if cold {
+						seen[wi] = append(seen[wi], obs{2, o.a, o.b, readAll(*pp, o.b)})
+						continue
+					}
 					if got := readAll(*pp, o.b); got != slots[o.a].want[o.b] {
 						fail("shareable", "reader-disagrees", "accessor", "reader of shared packet (input %d) got a different answer from accessor group %d than its publisher:\n got %q\nwant %q", slots[o.a].in, o.b, got, slots[o.a].want[o.b])
 					}
@@ -522,6 +569,30 @@ func simC02(c *sim.Ctx) {
 		if f != nil {
 			c.Fail(f.clause, f.kind, f.where, "%s", f.detail)
 		}
+	}
+	if cold {
+		// reference taken now, in a quiet state, after the concurrent first uses
+		mkRef()
+		for wi := range seen {
+			for _, o := range seen[wi] {
+				switch o.kind {
+				case 0:
+					if o.got != ref[o.a][o.b] {
+						c.Fail("deterministic", "first-use-differs", "NewPacket", "worker %d, among the first users in this process, decoded/rendered input %d (options %d) differently from a decode of the same bytes after the run:\n got %q\nwant %q", wi, o.a, o.b, o.got, ref[o.a][o.b])
+					}
+				case 2:
+					in := slots[o.a].in
+					twin := gopacket.NewPacket(pristine[in], firsts[in], gopacket.Default)
+					if prepped[o.a] {
+						prepare(twin)
+					}
+					if want := readAll(twin, o.b); o.got != want {
+						c.Fail("shareable", "first-use-differs", "accessor", "worker %d, among the first readers in this process, got a different answer from accessor group %d of the shared packet (input %d) than a reader after the run:\n got %q\nwant %q", wi, o.b, in, o.got, want)
+					}
+				}
+			}
+		}
+		c.Probe("cold_process_run")
 	}
 	for i := range inputs {
 		if !bytes.Equal(inputs[i], pristine[i]) {
@@ -567,6 +638,8 @@ func simC04(c *sim.Ctx) {
 		refsig[i] = signature(gopacket.NewPacket(orig[i], firsts[i], gopacket.Default))
 	}
 	s := coop.New(c)
+	verifhook.Hook = s.AnyLockHook
+	defer func() { verifhook.Hook = nil }()
 	nw := 2 + c.Weighted(2, 2, 1)
 	type op struct{ kind, a, b int }
 	plans := make([][]op, nw)
@@ -740,7 +813,7 @@ func b2i(b bool) int64 {
 	return 0
 }
 
-var sims = map[string]sim.SimFunc{"c02": simC02, "c04": simC04}
+var sims = map[string]sim.SimFunc{"c02": simC02, "c02cold": simC02cold, "c04": simC04}
 
 func TestChild(t *testing.T) {
 	if !sim.ChildMain(sims) {
